@@ -76,14 +76,23 @@ TrFilterMap == IsEv("filter_map") /\ (IF IsG THEN G!FilterMap(E.nmap, E.emap) EL
 (* conversions between the two containers *)
 TrToStable == /\ IsEv("to_stable") /\ IsG /\ kind' = "stable" /\ ret' = E.ret /\ UNCHANGED <<acyc, order, saved>>
               /\ UNCHANGED <<nd, ed, dir, maxix, stamp, pending>> /\ Bind
-TrToGraph ==  \* compaction in index order; edges are re-added in index order
+\* compaction in index order; edges are re-added in index order
+CompactInIndexOrder ==
+    LET ns == Asc(LiveN)   es == Asc(LiveE)
+        newIx(i) == Cardinality({j \in LiveN : j < i}) IN
+    /\ nd' = [j \in 1 .. Len(ns) |-> nd[ns[j] + 1]]
+    /\ ed' = [j \in 1 .. Len(es) |-> [s |-> newIx(Ed(es[j]).s), t |-> newIx(Ed(es[j]).t),
+                                       w |-> Ed(es[j]).w, k |-> stamp + j]]
+    /\ stamp' = stamp + Len(es) + 1
+TrToGraph ==
     /\ IsEv("to_graph") /\ ~IsG /\ kind' = "graph" /\ UNCHANGED <<acyc, order, saved>>
-    /\ LET ns == Asc(LiveN)   es == Asc(LiveE)
-           newIx(i) == Cardinality({j \in LiveN : j < i}) IN
-       /\ nd' = [j \in 1 .. Len(ns) |-> nd[ns[j] + 1]]
-       /\ ed' = [j \in 1 .. Len(es) |-> [s |-> newIx(Ed(es[j]).s), t |-> newIx(Ed(es[j]).t),
-                                          w |-> Ed(es[j]).w, k |-> stamp + j]]
-       /\ stamp' = stamp + Len(es) + 1
+    /\ CompactInIndexOrder
+    /\ UNCHANGED <<dir, maxix, pending>> /\ Bind
+\* data::FromElements on the container's own element stream (nodes in index order, then edges in index order with
+\* endpoints given as positions in the node stream): the same container type, compacted, lists rebuilt in index order
+TrFromElements ==
+    /\ IsEv("from_elements") /\ ~acyc /\ Same
+    /\ CompactInIndexOrder
     /\ UNCHANGED <<dir, maxix, pending>> /\ Bind
 
 (* ------------------------------------------------------------------ C17: serde
@@ -202,7 +211,7 @@ TraceNext ==
     \/ TrRemoveEdge \/ TrRemoveNode \/ TrReverse \/ TrClear \/ TrClearEdges
     \/ TrSetNodeWeight \/ TrSetEdgeWeight \/ TrIndexTwiceNE \/ TrIndexTwiceNN \/ TrNoEffect \/ TrIntoEdgeType
     \/ TrRetainBegin \/ TrRetainVisit \/ TrRetainEnd \/ TrExtend \/ TrMap \/ TrFilterMap
-    \/ TrToStable \/ TrToGraph \/ TrObs
+    \/ TrToStable \/ TrToGraph \/ TrFromElements \/ TrObs
     \/ TrSer \/ TrDe \/ TrSave \/ TrRestore
     \/ TrAcWrap \/ TrAcUnwrap \/ TrAcAddNode \/ TrAcTryAddEdge \/ TrAcTryUpdateEdge \/ TrAcBuildAddEdge
     \/ TrAcBuildUpdateEdge \/ TrAcRemoveEdge \/ TrAcRemoveNode
